@@ -26,6 +26,7 @@ import Driver.Load
 import Driver.ExText
 import Driver.ExK
 import Driver.Keys
+import Driver.C18R
 /-!
 Line-protocol driver `jsight-model` (DESIGN.md §12). One request per line on stdin, one reply per
 line on stdout. Core Lean only: nothing imported here may import Mathlib (the executable would
@@ -239,6 +240,7 @@ def handle (line : String) : String :=
   | "lk" :: _ => DLK.handle line
   | "ast" :: r => DMisc.ast r
   | "rgx" :: r => DMisc.rgx r
+  | "c18r" :: r => DC18R.handle r
   | _ => "bad-op"
 
 partial def loop (h : IO.FS.Stream) (out : IO.FS.Stream) : IO Unit := do
